@@ -25,6 +25,7 @@ type subLog struct {
 	recs  []NodeEv
 	// scheduling steps: SubscribeToEvents returned; unsubscribe called / returned (-1: never)
 	subRet, unsubCall, unsubRet int
+	afterUnsub                  string // content of the voucher (result) this subscriber's task sent right after its unsubscribe returned
 }
 
 func (nr *netRun) mkSub(l *subLog) datatransfer.Subscriber {
@@ -67,6 +68,29 @@ func (nr *netRun) installSubs() {
 				unsub()
 				l.unsubRet = r.S.Steps
 				r.Probe("unsubscribed-mid-run")
+				// an event that is certainly applied after the unsubscribe returned: this very task now sends a voucher
+				// (voucher result on the responder) with a content of its own on the first live channel
+				for _, x := range nr.xs {
+					if !x.opened || x.raw || x.openErr != nil {
+						continue
+					}
+					if s, ok := n.State(x.chid); !ok || isTerminal(s.Status) || isCleanup(s.Status) {
+						continue
+					}
+					tv := datatransfer.TypedVoucher{Voucher: basicnode.NewString("after-unsubscribe-of-" + l.name), Type: "T0"}
+					var err error
+					if n == nr.A {
+						err = n.Mgr.SendVoucher(context.Background(), x.chid, tv)
+					} else {
+						tv.Type = "R0"
+						err = n.Mgr.SendVoucherResult(context.Background(), x.chid, tv)
+					}
+					if err == nil {
+						l.afterUnsub = encTV(tv)
+						r.Probe("event-applied-right-after-unsubscribe")
+					}
+					break
+				}
 			})
 		}
 	}
@@ -219,7 +243,16 @@ func (nr *netRun) checkSubscribers() {
 				}
 			}
 		}
-		// ... and nothing that was applied after its unsubscribe returned (the pokes certainly were)
+		// ... and nothing that was applied after its unsubscribe returned: the voucher its own task sent right afterwards,
+		// and the pokes, certainly were
+		if l.afterUnsub != "" {
+			for _, e := range l.recs {
+				if e.Snap.LastV == l.afterUnsub || e.Snap.LastR == l.afterUnsub {
+					r.Failf("C17", "called-after-unsubscribe", datatransfer.Events[e.Code]+"|right-after", "subscriber %s was called with %s carrying the voucher that its own task sent after its unsubscribe had returned (step %d; called at step %d)", l.name, datatransfer.Events[e.Code], l.unsubRet, e.Step)
+					break
+				}
+			}
+		}
 		if l.unsubRet >= 0 {
 			for _, e := range l.recs {
 				if e.Step >= pokeStart && e.Step > l.unsubRet {
